@@ -136,7 +136,10 @@ class BuiltinMixin:
         if name in ("min", "max"):
             return self.minmax(st, name, args, node)
         if name == "sorted":
-            return [Out("val", st, self.sorted_(st, args[0], node))]
+            if any(k != "reverse" for k in kwargs):
+                raise Unsupported("sorted(key=...)", node)
+            rev = self.truthy(st, kwargs["reverse"]) if "reverse" in kwargs else None
+            return [Out("val", st, self.sorted_(st, args[0], node, rev))]
         if name == "abs":
             x = self.as_int(args[0])
             return [Out("val", st, vint(z3.If(x < 0, -x, x)))]
@@ -337,8 +340,24 @@ class BuiltinMixin:
             outs.append(Out("val", s2, vint(m)))
         return outs
 
-    def sorted_(self, st: State, v: Val, node) -> Val:
+    def sorted_(self, st: State, v: Val, node, rev=None) -> Val:
         """sorted(xs): a permutation of xs (assumed contract; ordering facts only for ints / strings)."""
+        keyview = v.py[1] if (v.py is not None and v.py[0] == "iter" and "dom" in v.py[1]) else None
+        if keyview is None and v.tup is None and hint_kind(v.th.strip_optional() if v.th is not None else None) in ("dict", "set"):
+            keyview = self.keys_view(st, v, node)
+            v = Val(py=("iter", keyview), th=v.th)
+        res = self._sorted(st, v, node, rev)
+        if keyview is not None:
+            # the sorted list of a key set enumerates it without repetition: position function in both directions
+            items = st.hread("$litems", V.r(res.z))
+            dom, n = keyview["dom"], keyview["n"]
+            spos = z3.Function(f"sortedpos!{id(items) % 1000000}", V, IntS)
+            x, j = fresh("x", V), fresh("j", IntS)
+            st.assume(z3.ForAll([x], z3.Implies(z3.Select(dom, x), z3.And(0 <= spos(x), spos(x) < n, z3.Select(items, spos(x)) == x))))
+            st.assume(z3.ForAll([j], z3.Implies(z3.And(0 <= j, j < n), z3.And(z3.Select(dom, z3.Select(items, j)), spos(z3.Select(items, j)) == j))))
+        return res
+
+    def _sorted(self, st: State, v: Val, node, rev=None) -> Val:
         src = self.to_list(st, v, node) if (v.tup is not None or hint_kind(v.th) != "list") else v
         r0 = V.r(src.z)
         n = st.hread("$llen", r0)
@@ -354,9 +373,14 @@ class BuiltinMixin:
         eth = src.th.args[0] if src.th and src.th.args else None
         ek = hint_kind(eth)
         if ek == "int":
-            st.assume(z3.ForAll([j, k], z3.Implies(z3.And(0 <= j, j < k, k < n), V.i(z3.Select(items, j)) <= V.i(z3.Select(items, k)))))
+            asc = V.i(z3.Select(items, j)) <= V.i(z3.Select(items, k))
+            if rev is not None:
+                asc = z3.If(rev, V.i(z3.Select(items, j)) >= V.i(z3.Select(items, k)), asc)
+            st.assume(z3.ForAll([j, k], z3.Implies(z3.And(0 <= j, j < k, k < n), asc)))
         elif ek == "str":
             lt = z3.Function("str_lt", IntS, IntS, BoolS)
+            if rev is not None:
+                raise Unsupported("sorted(strings, reverse=...)", node)
             st.assume(z3.ForAll([j, k], z3.Implies(z3.And(0 <= j, j < k, k < n),
                                                    z3.Not(lt(V.s(z3.Select(items, k)), V.s(z3.Select(items, j)))))))
         return self.new_list_sym(st, items, n, eth)
@@ -464,10 +488,11 @@ class BuiltinMixin:
         j = fresh("j", IntS)
         st.assume(z3.ForAll([j], z3.Implies(z3.And(0 <= j, j < n), z3.Select(new, j) == z3.Select(old, j))))
         npc = len(st.pc)
-        e = view["get"](st, j)
+        e = view["get"](st, j - n)
         side = st.pc[npc:]
         del st.pc[npc:]
-        st.assume(z3.ForAll([j], z3.Implies(z3.And(0 <= j, j < m), z3.And(side + [z3.Select(new, n + j) == self.to_z(st, e)]))))
+        # absolute index on the side of the new array: its select terms are the triggers
+        st.assume(z3.ForAll([j], z3.Implies(z3.And(n <= j, j < n + m), z3.And(side + [z3.Select(new, j) == self.to_z(st, e)]))))
         st.hwrite("$litems", r, new)
         st.hwrite("$llen", r, z3.simplify(n + m))
         return [Out("val", st, vnone())]
@@ -534,7 +559,7 @@ class BuiltinMixin:
         j = fresh("j", IntS)
         st.assume(z3.ForAll([j], z3.Implies(z3.And(0 <= j, j < i), z3.Select(new, j) == z3.Select(old, j))))
         st.assume(z3.Select(new, i) == self.to_z(st, args[1]))
-        st.assume(z3.ForAll([j], z3.Implies(z3.And(i <= j, j < n), z3.Select(new, j + 1) == z3.Select(old, j))))
+        st.assume(z3.ForAll([j], z3.Implies(z3.And(i < j, j <= n), z3.Select(new, j) == z3.Select(old, j - 1))))
         st.hwrite("$litems", r, new)
         st.hwrite("$llen", r, z3.simplify(n + 1))
         return [Out("val", st, vnone())]
